@@ -36,8 +36,6 @@ class Tseitin(SHarness):
     def points(self, tier):
         for g in gen.graph_box(_top(tier)):
             n = g['n']
-            if n == 5 and (len(g['edges']) % 3):        # thin G(5): a third of the graphs
-                continue
             vecs = [None] + [list(c) for k in sorted({0, max(n - 1, 0), n, n + 1})
                              for c in itertools.product([0, 1], repeat=k)]
             seen = set()
@@ -104,7 +102,7 @@ class KColor(SHarness):
     def points(self, tier):
         for g in gen.graph_box(_top(tier)):
             for k in range(0, 5 if tier != 'quick' else 4):
-                if g['n'] == 5 and (len(g['edges']) % 2 or k > 3):
+                if g['n'] == 5 and k > 3:
                     continue
                 for fn in (True, False):
                     yield dict(g, k=k, functional=fn, cls='OPB' if (len(g['edges']) + k) % 4 == 0 else 'CNF')
@@ -405,8 +403,6 @@ class Auto(Iso):
 
     def points(self, tier):
         for g in gen.graph_box(_top(tier)):
-            if g['n'] == 5 and len(g['edges']) % 2:
-                continue
             yield dict(g, n2=g['n'], edges2=g['edges'])
 
     def build(self, p):
